@@ -354,26 +354,34 @@ func (s *Store) UnregisterDB(ctx context.Context, path string) error {
 
 	s.mu.Lock()
 
-	idx := -1
 	var db *DB
-	for i, existing := range s.dbs {
+	for _, existing := range s.dbs {
 		if existing.Path() == path {
-			idx = i
 			db = existing
 			break
 		}
 	}
 
+	s.mu.Unlock()
+
 	if db == nil {
-		s.mu.Unlock()
 		return nil
 	}
 
-	s.dbs = slices.Delete(s.dbs, idx, idx+1)
+	// Close the database while it is still registered. If it were removed from
+	// the list first, a concurrent RegisterDB for the same path would open a
+	// second instance while this one is still running its final sync; both would
+	// number level-0 files from the same meta directory.
+	closeErr := db.Close(ctx)
+
+	s.mu.Lock()
+	if i := slices.Index(s.dbs, db); i >= 0 {
+		s.dbs = slices.Delete(s.dbs, i, i+1)
+	}
 	s.mu.Unlock()
 
-	if err := db.Close(ctx); err != nil {
-		return fmt.Errorf("close db: %w", err)
+	if closeErr != nil {
+		return fmt.Errorf("close db: %w", closeErr)
 	}
 
 	return nil
